@@ -203,7 +203,62 @@ def check_string(s, cfg, tolerant, res, case):
     return kinds
 
 
+def read_all(s, cfg, tolerant, interfere):
+    """token keys from reading with next_token only; with interfere=True every read is
+    preceded by a peek under a different, temporary parsing state and uses a freshly built
+    (equal) parsing state object"""
+    from pylatexenc.latexnodes import (LatexTokenReader, LatexWalkerEndOfStream,
+                                       LatexWalkerTokenParseError)
+    r = LatexTokenReader(s, tolerant_parsing=tolerant)
+    ps = parsing_state(s, cfg)
+    out = []
+    for _ in range(len(s) + 2):
+        try:
+            if interfere:
+                other = dict(cfg)
+                if other.get('in_math_mode'):
+                    other['in_math_mode'] = False
+                    other.pop('math_mode_delimiter', None)
+                else:
+                    other['in_math_mode'] = True
+                    other['math_mode_delimiter'] = '$'
+                try:
+                    r.peek_token(parsing_state(s, other))
+                except (LatexWalkerEndOfStream, LatexWalkerTokenParseError):
+                    pass
+                ps = parsing_state(s, cfg)
+            t = r.next_token(ps)
+        except LatexWalkerEndOfStream as e:
+            out.append(('EOS', getattr(e, 'final_space', '')))
+            break
+        except LatexWalkerTokenParseError as e:
+            out.append(('TOKERR', getattr(e, 'pos', None)))
+            break
+        out.append(tokkey(t))
+    return out
+
+
+def check_interference(s, cfg, res, case):
+    res.case()
+    for tolerant in (False, True):
+        try:
+            a = read_all(s, cfg, tolerant, False)
+            b = read_all(s, cfg, tolerant, True)
+        except Exception as e:
+            res.fail(exc_key(e), exc_detail(e), dict(case, interference=True, tolerant=tolerant))
+            return
+        if a != b:
+            res.fail('c11:peek-with-other-state-affects-reads:%s' % ('tolerant' if tolerant
+                                                                       else 'strict'),
+                     'reading %r: plain reads give %r; with a peek under another parsing state '
+                     'before each read %r' % (s, a, b), dict(case, interference=True))
+            return
+    res.label('interference-pass')
+
+
 def check_both(s, cfg, res, case, count=True):
+    if not cfg or (len(cfg) <= 2 and ('in_math_mode' in cfg or 'ctx' in cfg or 'enable_math' in cfg)):
+        check_interference(s, cfg, res, case)
     ks = None
     for tolerant in (False, True):
         k = check_string(s, cfg, tolerant, res, dict(case, tolerant=tolerant))
@@ -244,7 +299,9 @@ def run_shard(shard, res):
 
 def check_case(case, res):
     s = ''.join(case['tokens'])
-    if 'tolerant' in case:
+    if case.get('interference'):
+        check_interference(s, case['cfg'], res, case)
+    elif 'tolerant' in case:
         check_string(s, case['cfg'], case['tolerant'], res, case)
     else:
         check_both(s, case['cfg'], res, case)
